@@ -21,9 +21,9 @@ _PUSH_BOUNDS = ("STEP lemma: every int (34) / float (18) / bool (13) instruction
                 "(0, -1, 42, MIN, MAX; 1.5, inf, NaN, -0.0; true, false), PrintString/PrintSpace/PrintNewline/PrintPeriod.  Exec instructions (generic Pop/Push/Dup/IsEmpty/StackDepth, Noop, "
                 "DupBlock, When, Unless, IfElse) against their documented action tables on exec stacks of 0..=2 distinct sentinel programs (thorough: Swap, Flush, deeper stacks, "
                 "one-element blocks) with symbolic conditions and maxima.  Thorough only: DISPATCH through PushInstruction / PushProgram on a builder-made PushState and input variables")
-_PUSH_OUTSIDE = ("whole-program runs: the claim is the single-step lemma from an arbitrary bounded state; that a run is a sequence of such steps (interpreter loop pops the exec stack "
-                 "front to back, recovers recoverable errors, counts steps, blocks unfold in order) is NOT decided in the quick tier -- run_to_completion on a symbolic program did not fit "
-                 "the solver budget (DESIGN 3.2) -- and is composed on paper; stacks deeper than 3 before the step "
+_PUSH_OUTSIDE = ("whole-program runs as one query: the claim is compositional -- STEP lemma (Kani/CBMC) + LOOP lemma (symbolic execution of the MIR of run_to_completion with z3: at most LIMIT "
+                 "calls, front-to-back order, performed entry removed, carried state after a recoverable error, fatal error ends the run, exit only on empty exec / limit; initial exec depth <= 3, "
+                 "<= 4 calls per path, callees modelled as listed in the evidence) + BLOCK/DISPATCH (thorough tier); the induction joining them is on paper; stacks deeper than 3 before the step "
                  "(instructions read at most the top 3 elements plus size/is_full); Power outside the stated operand domain; formatting of arbitrary "
                  "symbolic numbers (print operands come from a table); pre-states that violate size <= max (not reachable: the invariant is the C03 lemma)")
 for _pid, _a, _what in (("C01", "a01", "outcome, stacks and output equal the reference step"),
@@ -35,7 +35,9 @@ for _pid, _a, _what in (("C01", "a01", "outcome, stacks and output equal the ref
         "modules": ["c01_stepgen::", "c01_print::", "c01_exec::", "c01_dispatch::", "c01_loop::"],
         "stubbing": True,
         "needs_rand_090": False,
-        "functions": _PUSH_FUNCS,
+        # LOOP lemma labels (bin/mirloop) that belong to this property
+        "mirloop": {"L1": ["C01", "C03"], "L2": ["C01", "C02"], "L4": ["C03"], "L5": ["C01", "C03"]},
+        "functions": _PUSH_FUNCS + ["MIR of <PushState as State>::run_to_completion, State::perform, TryRecover::try_recover + closure (bin/mirloop, z3)"],
         "bounds": {"quick": _PUSH_BOUNDS + "; assertion set: " + _what, "thorough": _PUSH_BOUNDS + "; assertion set: " + _what},
         "outside": _PUSH_OUTSIDE,
         "assumptions": ["pre-states satisfy size <= max on every stack (inductive invariant, itself asserted as post-condition under C03)",
@@ -50,14 +52,14 @@ for _pid, _a, _what in (("C01", "a01", "outcome, stacks and output equal the ref
         "unwindset_by_harness": [
             ("^c01_t_exec_.*_nested$", [(r"drop_glueNtNtNt\w+_4push7push_vm7program11PushProgramE", 2), (r"^_RNvX\w*7programNt\w+11PushProgramNt\w+5clone5Clone5clone", 2),
                                         (r"drop_glueSNtNtNt\w+_4push7push_vm7program11PushProgramE", 2)]),
-            ("^c01_t_dispatch_", [(r"drop_glueNtNtNt\w+_4push7push_vm7program11PushProgramE", 1), (r"^_RNvX\w*7programNt\w+11PushProgramNt\w+5clone5Clone5clone", 1),
+            ("^c01_t_(dispatch|loop|block)_", [(r"drop_glueNtNtNt\w+_4push7push_vm7program11PushProgramE", 1), (r"^_RNvX\w*7programNt\w+11PushProgramNt\w+5clone5Clone5clone", 1),
                                 (r"drop_glueSNtNtNt\w+_4push7push_vm7program11PushProgramE", 1)]),
             ("^c01_exec_", [(r"drop_glueNtNtNt\w+_4push7push_vm7program11PushProgramE", 1), (r"^_RNvX\w*7programNt\w+11PushProgramNt\w+5clone5Clone5clone", 1),
                             (r"drop_glueSNtNtNt\w+_4push7push_vm7program11PushProgramE", 1)]),
         ],
-        "caps_by_harness": [("power", (600, 12)), ("^c01_t_exec_", (1500, 14)), ("^c01_t_dispatch_", (1500, 14))],
+        "caps_by_harness": [("power", (600, 12)), ("^c01_t_exec_", (1500, 14)), ("^c01_t_(dispatch|loop|block)_", (1500, 14))],
         # exec harnesses with >= 2 programs need 4-8 GB each: at most 4 side by side
-        "weight_by_harness": [("^c01_t_exec_", 4), ("^c01_t_dispatch_", 2), ("_swap_d[23]$", 2), ("^c01_exec_(if_else_e2|push_empty)", 2)],
+        "weight_by_harness": [("^c01_t_exec_", 4), ("^c01_t_(dispatch|loop|block)_", 2), ("_swap_d[23]$", 2), ("^c01_exec_(if_else_e2|push_empty)", 2)],
     }
 
 PROPS["C04"] = {
@@ -75,8 +77,7 @@ PROPS["C04"] = {
                  "max_stack_size an unconstrained usize (so a maximum lowered below the size is inside), every "
                  "argument symbolic (pushed value, discard count any usize, bulk insert of k<=3 symbolic items, "
                  "k symbolic for push_many; (L,k) in {(0,0),(0,2),(1,1),(2,3),(3,2)} for try_extend); loops unwound 8 with unwinding assertions",
-        "thorough": "as quick, plus the full (L,k) grid L<=4,k<=3 for try_extend and all sequences of two "
-                    "symbolically chosen operations (10 kinds) from every pre-state with L<=4",
+        "thorough": "as quick, plus the full (L,k) grid L<=4, k<=3 for try_extend and push_many",
     },
     "outside": "element types other than i64 (the code is generic and does not inspect T); stacks deeper than 4 before the "
                "operation (the operations only touch the top 3 elements and the length, see DESIGN C04); allocation failure",
